@@ -13,6 +13,7 @@ package c17
 import (
 	"encoding/json"
 	"fmt"
+	"io"
 	"os"
 	"sort"
 	"strconv"
@@ -38,6 +39,10 @@ type Case struct {
 	Cons      []string `json:"cons,omitempty"` // range | pop | select | select-tick
 	TimeoutMs int      `json:"timeout_ms,omitempty"`
 	SleepMs   int      `json:"sleep_ms,omitempty"`
+	// ReadPush (s1): producers push with (read-push stream c) from a stream
+	// that delivers Chunk numbers per read instead of with channel-push.
+	ReadPush bool `json:"read_push,omitempty"`
+	Chunk    int  `json:"chunk,omitempty"`
 	// s2 / s3
 	R     int      `json:"r,omitempty"`
 	Iter  int      `json:"iter,omitempty"`
@@ -133,6 +138,9 @@ func (e *engine) Generate(seed uint64, idx int, tier string, avoid []harness.Fin
 		if r.Pct(40) {
 			c.SleepMs = []int{1, 5, 50}[r.Intn(3)]
 		}
+		if r.Pct(20) {
+			c.ReadPush, c.Chunk, c.SleepMs = true, 1+r.Intn(5), 0
+		}
 	case x < 65:
 		c.Scen = "s2"
 		c.R = 2 + r.Intn(4)
@@ -212,6 +220,11 @@ func (c *Case) program(sfx string) program {
 			sl := ""
 			if c.SleepMs > 0 {
 				sl = fmt.Sprintf(" (sleep %g)", float64(c.SleepMs)/1000)
+			}
+			if c.ReadPush {
+				// rps<p> is bound by the harness to a stream of the same numbers
+				fmt.Fprintf(&b, " (run (progn (read-push rps%d c) (channel-push pd 1)))\n", p)
+				continue
 			}
 			fmt.Fprintf(&b, " (run (progn (dotimes (i %d) (channel-push c (+ %d i))%s) (channel-push pd 1)))\n", c.N, (p+1)*1000, sl)
 		}
@@ -441,6 +454,30 @@ func (c *Case) program(sfx string) program {
 	return pr
 }
 
+// streamObj is a Lisp input stream that delivers one chunk of text per read.
+type streamObj struct {
+	chunks []string
+}
+
+func (o *streamObj) Read(p []byte) (int, error) {
+	if len(o.chunks) == 0 {
+		return 0, io.EOF
+	}
+	n := copy(p, o.chunks[0])
+	o.chunks = o.chunks[1:]
+	return n, nil
+}
+func (o *streamObj) String() string               { return "#<sim-stream>" }
+func (o *streamObj) Append(b []byte) []byte       { return append(b, "#<sim-stream>"...) }
+func (o *streamObj) Simplify() any                { return "#<sim-stream>" }
+func (o *streamObj) Equal(other slip.Object) bool { return o == other }
+func (o *streamObj) Hierarchy() []slip.Symbol {
+	return []slip.Symbol{slip.InputStreamSymbol, slip.StreamSymbol, slip.TrueSymbol}
+}
+func (o *streamObj) Eval(s *slip.Scope, depth int) slip.Object { return o }
+func (o *streamObj) StreamType() slip.Symbol                   { return slip.InputStreamSymbol }
+func (o *streamObj) IsOpen() bool                              { return true }
+
 // ---- execution ----
 
 type mark struct {
@@ -480,6 +517,19 @@ type runOut struct {
 
 func (c *Case) exec(main string, setup string, sfx string, solo bool) runOut {
 	scope := slip.NewScope()
+	if c.Scen == "s1" && c.ReadPush {
+		for p := 0; p < c.P; p++ {
+			var chunks []string
+			for i := 0; i < c.N; i += c.Chunk {
+				var sb strings.Builder
+				for j := i; j < i+c.Chunk && j < c.N; j++ {
+					fmt.Fprintf(&sb, "%d ", (p+1)*1000+j)
+				}
+				chunks = append(chunks, sb.String())
+			}
+			scope.Let(slip.Symbol(fmt.Sprintf("rps%d", p)), &streamObj{chunks: chunks})
+		}
+	}
 	if setup != "" {
 		if r := lispsim.Eval(lispsim.Read(setup), scope); r.Cond != "" {
 			panic(fmt.Sprintf("c17: setup failed: %s %s", r.Cond, r.Msg))
